@@ -36,6 +36,7 @@ def _uf_abstract(terms):
         return r
 
     out = [walk(t) for t in terms]
+    _uf_abstract.last_walk = walk
     cong = []
     for name, lst in apps.items():
         for i in range(len(lst)):
@@ -68,7 +69,8 @@ def _run_z3(assertions, timeout_ms, tactic=None):
         s = z3.Solver()
     else:
         s = tactic.solver()
-    s.set('timeout', int(timeout_ms))
+    if timeout_ms is not None:
+        s.set('timeout', int(timeout_ms))
     for a in assertions:
         s.add(a)
     try:
@@ -173,37 +175,107 @@ def hard_call(fn, timeout_s):
 PREF = {}
 
 
-def prove_isolated(assumptions, goal, timeout_s, extract, hints=(), key=None):
-    """prove() in a hard-killable child.  extract(model) -> picklable description of a counterexample."""
-    def work():
-        r, m = prove(assumptions, goal, timeout_s=timeout_s, prefer=PREF.get(key))
-        info = None
+def model_values(model, inputs):
+    from fractions import Fraction
+    vals = {}
+    for name, var in inputs.items():
+        v = model.eval(var, model_completion=True)
+        if z3.is_int_value(v):
+            vals[name] = str(v.as_long())
+        elif z3.is_rational_value(v):
+            vals[name] = str(Fraction(v.numerator_as_long(), v.denominator_as_long()))
+        elif z3.is_algebraic_value(v):
+            vals[name] = repr(float(v.approx(30).as_fraction()))
+        else:
+            vals[name] = '0'
+    return vals
+
+
+def _describe(model, inputs, regions, tr=None):
+    info = dict(values=model_values(model, inputs), regions=[])
+    for rn, rt in regions.items():
+        try:
+            t = tr(rt) if tr is not None else rt
+            if z3.is_true(model.eval(t, model_completion=True)):
+                info['regions'].append(rn)
+        except Exception:
+            pass
+    return info
+
+
+def prove_isolated(assumptions, goal, timeout_s, inputs, regions=None, hints=(), key=None):
+    """Each strategy of the portfolio runs in its own forked, hard-killable child WITHOUT a z3 timeout (z3's
+    timer threads do not survive fork(); the parent enforces the time limit).
+    -> ('unsat', None) | ('sat', {values, regions, via}) | ('unknown', None)"""
+    regions = regions or {}
+    base = list(assumptions) + [z3.Not(goal)]
+    has_uf = _has_uf(base)
+
+    def exact(tactic=None, extra=()):
+        def f():
+            r, m = _run_z3(base + list(extra), None, tactic)
+            return r, (_describe(m, inputs, regions) if r == 'sat' else None)
+        return f
+
+    def ufabs():
+        r, m = _nl_abs(base, None)
+        return r, None
+
+    def ufabs_model():
+        # candidate counterexample from the UF-abstracted problem (lemma instances kept as constraints on the
+        # abstract values; hints pin transcendental arguments to points fixed by lemma instances).  A candidate is
+        # only ever reported after it reproduces on the real code.
+        terms = base + list(hints)
+        ab = _uf_abstract(terms)
+        tr = _uf_abstract.last_walk
+        r, m = _run_z3(ab, None, _nlsat_tactic())
         if r == 'sat':
-            if hints:
-                r2, m2 = _run_z3(list(assumptions) + list(hints) + [z3.Not(goal)], 5000)
-                if r2 == 'sat':
-                    m = m2
-            info = extract(m)
-        return r, info, {k: STATS[k] for k in ('solver_s', 'by_strategy')}, STATS.get('last_used')
-    before = dict(STATS['by_strategy'])
-    t0 = time.time()
-    res = hard_call(work, timeout_s * 1.5 + 15)
-    STATS['queries'] += 1
-    if res is None:
-        STATS['unknown'] += 1
-        STATS['solver_s'] += time.time() - t0
-        STATS['by_strategy']['hard-timeout'] = STATS['by_strategy'].get('hard-timeout', 0) + 1
+            d = _describe(m, inputs, regions, tr)
+            d['via'] = 'uf-abstraction'
+            return 'sat', d
         return 'unknown', None
-    r, info, st, used = res
-    if key is not None and r == 'unsat' and used:
+
+    def cvc5():
+        r, _ = _run_cvc5(base, timeout_s * 200)
+        return r, None
+    strategies = []
+    if has_uf:
+        strategies += [('z3-default', 0.1, exact()), ('z3-nlsat-ufabs', 0.3, ufabs), ('z3-nlsat-ufabs-model', 0.15, ufabs_model)]
+    else:
+        strategies += [('z3-nlsat', 0.4, exact(_nlsat_tactic())), ('z3-default', 0.15, exact())]
+    strategies += [('cvc5', 0.2, cvc5), ('z3-default-long', 0.25, exact())]
+    pref = PREF.get(key)
+    if pref:
+        strategies.sort(key=lambda t: 0 if t[0] == pref else 1)
+    t0 = time.time()
+    STATS['queries'] += 1
+    result, info, used = 'unknown', None, None
+    for name, frac, f in strategies:
+        res = hard_call(f, max(1.0, timeout_s * frac))
+        if res is None:
+            continue
+        r, inf = res
+        if r == 'unsat':
+            result, used = 'unsat', name
+            break
+        if r == 'sat' and inf is not None:
+            result, info, used = 'sat', inf, name
+            break
+        if r == 'sat' and name == 'cvc5':
+            res2 = hard_call(exact(), max(2.0, timeout_s * 0.5))
+            if res2 is not None and res2[0] == 'sat':
+                result, info, used = 'sat', res2[1], 'cvc5+z3model'
+                break
+    if result == 'sat' and hints and used != 'z3-nlsat-ufabs-model':
+        res3 = hard_call(exact(None, hints), 5.0)
+        if res3 is not None and res3[0] == 'sat' and res3[1] is not None:
+            info = res3[1]
+    if key is not None and result == 'unsat' and used:
         PREF[key] = used
-    STATS[r] += 1
+    STATS[result] += 1
     STATS['solver_s'] += time.time() - t0
-    for k, v in st['by_strategy'].items():
-        d = v - before.get(k, 0)
-        if d > 0:
-            STATS['by_strategy'][k] = STATS['by_strategy'].get(k, 0) + d
-    return r, info
+    STATS['by_strategy'][used or 'none'] = STATS['by_strategy'].get(used or 'none', 0) + 1
+    return result, info
 
 
 def prove(assumptions, goal, timeout_s=20.0, want_model=True, prefer=None):
